@@ -391,6 +391,7 @@ class Runner(object):
         # two entities may share an id once a kept-id copy has been made inside this file
         self.sub_dups = bool(w.dup_ids) or getattr(self, "any_kept", False)
         self.sub_defined = set(w.defined)          # the entities the subtree OWNS (without the targets of its links)
+        self.sub_dup_ids = list(w.dup_ids)         # ids that two entities OF THIS SUBTREE carry
         return toks, set(w.defined) | set(t for _, _, t in w.linked if isinstance(t, str))
 
     @staticmethod
@@ -410,6 +411,7 @@ class Runner(object):
         src, src_ids = src_before[1]
         cp, cp_ids = self.subwalk(xk, o)
         cp_own = self.sub_defined
+        cp_dup = self.sub_dup_ids
         ev = {"step": self.step - 1, "keep": bool(keep), "shallow": shallow, "problems": []}
         want_name = name if name is not None else x.name
         if o.name != want_name:
@@ -421,6 +423,9 @@ class Runner(object):
             same_obj = False
         if same_obj:
             ev["problems"].append("the returned entity is the source itself")
+        if not keep and cp_dup:
+            # whatever the source looked like (its ids may be ambiguous after kept-id copies): FRESH ids are unique
+            ev["problems"].append("two entities of the copy share a fresh id")
         # same content modulo the top name and (fresh ids) an injective renaming onto new ids
         if len(src) != len(cp):
             ev["problems"].append("the copy's walk has %d tokens, the source's %d" % (len(cp), len(src)))
@@ -515,6 +520,9 @@ class Runner(object):
                             continue
                         n += 1
                         cp = self.subwalk(kind, o)
+                        if not keep and self.sub_dup_ids:
+                            problems.append("cross-file copy of %s %r: two entities of the copy share a fresh id" % (kind, x.name))
+                            continue
                         if len(cp[0]) != len(src[0]):
                             problems.append("cross-file copy of %s %r: %d tokens, source %d" % (kind, x.name, len(cp[0]), len(src[0])))
                             continue
